@@ -41,10 +41,14 @@ def ensure_built():
     """`lake build` (no-op when up to date). A failure here is infrastructure:
     the model and proofs are hand-written and do not depend on /repo."""
     t0 = time.time()
-    p = subprocess.run(
-        ["lake", "build"], cwd=LEAN_DIR, env=lean_env(), stdout=subprocess.PIPE,
-        stderr=subprocess.STDOUT, text=True,
-    )
+    import fcntl
+    os.makedirs(os.path.join(LEAN_DIR, ".lake"), exist_ok=True)
+    with open(os.path.join(LEAN_DIR, ".lake", "verif-build.lock"), "w") as lock:
+        fcntl.flock(lock, fcntl.LOCK_EX)      # checks started side by side build one after the other
+        p = subprocess.run(
+            ["lake", "build"], cwd=LEAN_DIR, env=lean_env(), stdout=subprocess.PIPE,
+            stderr=subprocess.STDOUT, text=True,
+        )
     if p.returncode != 0 or not os.path.exists(DRIVER):
         raise Infra("lake build failed:\n" + p.stdout[-4000:])
     return time.time() - t0
@@ -251,6 +255,7 @@ class Result:
         self.failures = []         # dicts: kind ('oracle' | 'disagree'), case, detail
         self.notes = []
         self.exhaustive = False
+        self.lines = set()         # (file under in_toto/, line) executed in the worker processes (harness.cover)
 
     def count(self, key, n=1):
         self.dist[key] = self.dist.get(key, 0) + n
@@ -281,6 +286,7 @@ class Result:
             self.dist[k] = self.dist.get(k, 0) + v
         self.failures += other.failures
         self.notes += other.notes
+        self.lines |= getattr(other, "lines", set())
         return self
 
 
@@ -289,7 +295,11 @@ def _shard_entry(args):
     global _DRIVER  # pylint: disable=global-statement
     _DRIVER = None
     try:
-        return ("ok", func(*shard_args))
+        out = func(*shard_args)
+        if isinstance(out, Result):
+            from harness import cover
+            out.lines |= cover.snapshot()
+        return ("ok", out)
     except Infra as e:
         return ("infra", str(e))
     except Exception as e:  # pylint: disable=broad-except
@@ -371,6 +381,11 @@ def write_evidence(prop, tier, seed, audit, res, wall, extra_cov=None, assumptio
     }
     if extra_cov:
         cov.update(extra_cov)
+    try:
+        from harness import cover
+        cov["code_executed"] = cover.report(REPO, cover.load_property(HERE, prop), res.lines | cover.snapshot())
+    except Exception as e:  # pylint: disable=broad-except
+        cov["code_executed"] = {"note": "not measured: %s" % (e,)}
     ev = {
         "property_id": prop,
         "tier": tier,
